@@ -625,6 +625,21 @@ impl Ctx {
                                 if r {
                                     self.used("submono");
                                 }
+                                // lemma expmono: p <= q  =>  p - min(u, p) <= q - min(u, q)
+                                if !r {
+                                    if let (Arg::N(mx), Arg::N(my)) = (x.b, y.b) {
+                                        let (nx, ny) = (self.nodes[mx as usize], self.nodes[my as usize]);
+                                        if nx.op == Op::Min && ny.op == Op::Min {
+                                            let other = |n: &Node, p: Arg| if n.a == p { Some(n.b) } else if n.b == p { Some(n.a) } else { None };
+                                            if let (Some(ux), Some(uy)) = (other(&nx, x.a), other(&ny, y.a)) {
+                                                if ux == uy && self.le_rec(x.a, y.a, depth - 1, memo) {
+                                                    r = true;
+                                                    self.used("expmono");
+                                                }
+                                            }
+                                        }
+                                    }
+                                }
                             }
                             Op::Mul if MONO_MUL && nonneg(x.a) && nonneg(x.b) && nonneg(y.a) && nonneg(y.b) => {
                                 r = (self.le_rec(x.a, y.a, depth - 1, memo) && self.le_rec(x.b, y.b, depth - 1, memo))
